@@ -31,8 +31,8 @@ CONFIG = {'gen': ['SmbCommands'],
                  'KiB per input byte per case, GOMEMLIMIT behind it)',
                  'stdlib internals (encoding/asn1, base64, hex, strconv, regexp, utf16, crypto/aes) do not panic',
                  'the repairs fixes/C07-*.diff (and the earlier fixes/C03-data-unmarshal-guard, C06-*, C08-*, C12-gppp-odd-length, '
-                 'C13-guid-strict-dbp, C20-ipv4-parse) are applied to the tree under test; fixes/C07-dn-domain-quadratic.diff is proposed only '
-                 '(the cost function C16.dnAllocOf follows the unrepaired `domain += …` loop)',
+                 'C13-guid-strict-dbp, C20-ipv4-parse) are applied to the tree under test, fixes/C07-dn-domain-quadratic.diff '
+                 'included (C16.dnAllocOf follows the strings.Builder loop; C16.dnAllocConcat keeps the old quadratic cost)',
                  'integer arguments of exported decoders other than the LLMNR offsets are not inputs of the property; negative LLMNR '
                  "offsets are covered by the campaign only (the model's offsets are naturals)"],
  'trusted': ['tools/extract/smb_commands.go (statement-by-statement translation of the 115 Marshal/Unmarshal bodies into the command IR; '
@@ -82,8 +82,8 @@ CONFIG = {'gen': ['SmbCommands'],
                'ntlm_target_info_alloc_bound (stored <= 2*len on every path, entries <= len/4), '
                'ntlm_challenge_parse_/asn1_field_/spnego_neg_token_resp_/spnego_extract_/spnego_process_challenge_alloc_bound (<= 327811); '
                'pkcs7_unpad_/utf16_decode_ (9 per code unit)/gpp_decrypt_bytes_ (6*len+16)/gpp_decrypt_base64_alloc_bound (7*len+32); '
-               'sid_alloc_bound (10*len), dn_domain_alloc_bound (result <= len, intermediate strings quadratic: (len+1)(len+16), measured '
-               'so on the real code, fixes/C07-dn-domain-quadratic.diff proposed), '
+               'sid_alloc_bound (10*len), dn_domain_alloc_bound (result <= len, allocated <= 17*len+16 since the repair of the quadratic '
+               '`domain += …` loop), '
                'uuid_guid_/ldap_time_/address_parsers_fixed_alloc_bound. No site in the tree allocates by an announced count before '
                'checking it; a make moved in front of its check is reported by the allocation audit (DNWithBinary.Parse: B:16777216::) or, '
                "below the audit's allowance, by the broken theorem (TransactionRequest Setup). Models that are plain total functions need "
